@@ -338,22 +338,32 @@ def _main(a, prop, seed, mod, tier, work, t_start, compile_s) -> int:
             exit_code = 1
     # ---- known findings: each open entry is re-checked from its committed replay file on every run
     known_lines = []
-    for e in known:
-        if e.get("status") != "open":
-            continue
+    open_entries = [e for e in known if e.get("status") == "open"]
+    reproduced = {}
+    groups = {}
+    for e in open_entries:
         rp = os.path.join(HERE, e["replay"]) if e.get("replay") else None
-        reproduced = None
         if rp and os.path.exists(rp):
             with open(rp) as f:
                 hs = json.load(f)["scenario"]["hashseed"]
-            r = run_worker(["replay", rp], hs, 600)
+            groups.setdefault(hs, []).append((e, rp))
+    for hs, items in sorted(groups.items()):
+        r = run_worker(["replaymany"] + [rp for _, rp in items], hs, 900)
+        got = {}
+        for line in r.stdout.splitlines():
             try:
-                res = json.loads(r.stdout.splitlines()[0])
+                d = json.loads(line)
+                got[d.get("path")] = d
             except Exception:
+                pass
+        for e, rp in items:
+            d = got.get(rp)
+            if d is None or d.get("verdict") == "harness-error":
                 log(f"HARNESS-ERROR: known-finding replay {rp} did not run:\n{r.stdout[-1500:]}\n{r.stderr[-1500:]}")
                 return 2
-            reproduced = res.get("verdict") == "violation" and "|".join(res.get("sig", [])) == e["signature"]
-        if reproduced or e["signature"] in known_matched:
+            reproduced[e["signature"]] = d.get("verdict") == "violation" and "|".join(d.get("sig") or []) == e["signature"]
+    for e in open_entries:
+        if reproduced.get(e["signature"]) or e["signature"] in known_matched:
             known_lines.append(f"KNOWN-FINDING: property={prop} {e['what']} [signature {e['signature']}; "
                                f"replay {e.get('replay')}; sampled runs hitting it: {known_matched.get(e['signature'], 0)}]")
         else:
